@@ -97,8 +97,10 @@ def to_obj(node, markers):
     o = Obj(type(node).__name__)
     for f in node._fields:
         o.attrs[f] = to_obj(getattr(node, f, None), markers)
-    if isinstance(node, ast.Name) and node.id.startswith('m_'):
-        markers[node.id] = o
+    if isinstance(node, ast.Name):
+        o.attrs['_pos'] = (node.lineno, node.col_offset)
+        if node.id.startswith('m_'):
+            markers[node.id] = o
     return o
 
 
@@ -157,6 +159,7 @@ def run(model, rep):
                  ('C03.FLOW', 'generated names exclude keywords and builtins')]:
         rep.rule(r, t)
     tab(model, rep)
+    resolve_rule(model, rep)
     forms(model, rep)
     res_rules(model, rep)
     flow(model, rep)
@@ -499,3 +502,262 @@ def flow(model, rep):
         rep.check(not bad and not dup and len(names) > 4, 'C03.FLOW', ng.loc(), 'name_generator over a reduced alphabet -> %d names (%s...)' % (len(names), names[:6]), 'identifiers, no duplicates',
                   'name generator yields invalid or duplicate identifiers: %s' % (bad[:5] or 'duplicates'), key='C03.FLOW|generator')
     rep.floor('C03.FLOW', 3)
+
+
+# ---------------------------------------------------------------------- RESOLVE: binder + resolver vs the interpreter's symbol tables
+RESOLVE_PROBES = {
+    'nested classes': '''
+def make():
+    u_value = 10
+    class Outer:
+        u_value = 1
+        class Inner:
+            def get(self):
+                return u_value
+            other = [u_value for _ in ()]
+    return Outer
+''',
+    'class scope is skipped by nested functions': '''
+u_glob = 0
+def f():
+    u_loc = 1
+    class C:
+        u_attr = 2
+        def m(self):
+            return u_attr, u_loc, u_glob
+        l = lambda: u_attr
+        first = (x for x in u_attr)
+        elem = (u_attr for x in ())
+    return C
+''',
+    'global and nonlocal declarations': '''
+def f():
+    u_n = 0
+    def h():
+        nonlocal u_n
+        u_n = u_n + 1
+        def k():
+            global u_g
+            u_g = u_n
+            return u_g
+        return k
+    return h
+''',
+    'shadowing and free variables': '''
+u_a = 1
+def outer(u_p):
+    u_a = 2
+    def mid():
+        def inner(u_p=u_p):
+            return u_a, u_p
+        return inner
+    def sibling():
+        u_a = 3
+        return u_a
+    return mid, sibling, [u_a for u_a in u_p], (lambda u_q: u_q + u_a)
+''',
+    'builtins and unresolved names': '''
+def f(u_x):
+    return len(u_x) + u_undefined_global
+class K:
+    def m(self):
+        return print
+''',
+    'binding forms': '''
+def f():
+    import u_mod
+    import pkg.sub as u_alias
+    from m import name as u_from
+    try:
+        pass
+    except E as u_exc:
+        u_exc
+    with open(u_mod) as u_with:
+        u_with
+    for u_for in u_alias:
+        u_for
+    match u_from:
+        case [u_cap, *u_rest]:
+            u_cap, u_rest
+        case {1: u_val, **u_kw}:
+            u_val, u_kw
+        case str() as u_as:
+            u_as
+    def u_func(): pass
+    class u_cls: pass
+    return u_func, u_cls
+''',
+    'walrus': '''
+def f(z):
+    r = [[(u_w := x) for x in a] for a in z]
+    return r, u_w
+''',
+}
+
+
+def _sym_resolve(tables, path, name):
+    """Scope path in which `name`, used in the scope at `path`, is bound according to the interpreter's tables (None = builtin / unbound global)."""
+    by_path = {p: t for (p, t) in tables}
+    t = by_path[path]
+    try:
+        s = t.lookup(name)
+    except KeyError:
+        return 'no-mention'
+    if s.is_global():
+        top = by_path[()]
+        try:
+            ts = top.lookup(name)
+            return () if (ts.is_assigned() or ts.is_imported() or s.is_declared_global() or ts.is_local()) else None
+        except KeyError:
+            return () if s.is_declared_global() else None
+    if s.is_free() or (t.get_type() == 'class' and not s.is_local()):
+        p = path[:-1]
+        while True:
+            tt = by_path[p]
+            if tt.get_type() != 'class':
+                try:
+                    ss = tt.lookup(name)
+                    if ss.is_local() and not ss.is_free():
+                        return p
+                except KeyError:
+                    pass
+            if p == ():
+                return None
+            p = p[:-1]
+    if s.is_local():
+        if path == ():
+            return () if (s.is_assigned() or s.is_imported() or s.is_parameter()) else None
+        return path
+    return None
+
+
+def resolve_rule(model, rep):
+    BN = R + 'bind_names'
+    RN = R + 'resolve_names'
+    n = 0
+    for pname, source in sorted(RESOLVE_PROBES.items()):
+        ref_src = ast.unparse(ast.fix_missing_locations(_ToGen().visit(ast.parse(source))))
+        tables = oracles.scope_tables(ref_src)
+        tree = ast.parse(source)
+        markers = {}
+        mod = to_obj(tree, markers)
+        set_parents(mod)
+        hooks = dict(std_hooks(), **{'dir': lambda I, e, args, kw, env: dir(builtins)})
+        I = Interp(model, MAPPER, hooks, max_depth=600)
+        I.MAX_PATHS = 8
+
+        def thunk():
+            I.call_function(MAPPER + '.add_namespace', [mod])
+            I.call_function(BN + '.bind_names', [mod])
+            I.call_function(RN + '.resolve_names', [mod])
+        res = I.explore(thunk)
+        if len(res) != 1 or res[0][0][0] != 'return':
+            raise AnalysisError('UNDECIDED: bind/resolve on probe %r -> %s %s' % (pname, [r[0] for r in res][:2], res[0][2][:3]))
+        scopes = [o for o in walk(mod) if isinstance(o.attrs.get('bindings'), list)]
+        owner = {}
+        for sc in scopes:
+            for b in sc.attrs['bindings']:
+                if isinstance(b, Obj):
+                    for r in b.attrs.get('_references', []):
+                        owner[id(r)] = (sc, b)
+        # every Name node whose id starts with u_
+        for node in walk(mod):
+            if node.cls != 'Name' or not str(node.attrs.get('id', '')).startswith(('u_', 'len', 'print')):
+                continue
+            name = node.attrs['id']
+            ctx = node.attrs['ctx'].cls
+            # scope of the occurrence according to the interpreter: the mapper-independent path comes from the symtable of the
+            # innermost table that mentions the name *and* encloses the node; computed from the real tree positions
+            use_path = _enclosing_scope_path(tree, node.attrs.get('_real') if '_real' in node.attrs else None, node)
+            if use_path is None:
+                continue
+            want = _sym_resolve(tables, use_path, name)
+            if want == 'no-mention':
+                continue
+            got_entry = owner.get(id(node))
+            n += 1
+            if got_entry is None:
+                rep.violation('C03.RESOLVE', 'src/python_minifier/rename/resolve_names.py', '%s: %s (%s) in %s' % (pname, name, ctx, '/'.join(use_path) or 'module'),
+                              'the name occurrence is attached to no binding at all: renaming its binding leaves this mention behind', key='C03.RESOLVE|%s|%s|%s|%s' % (pname, name, ctx, '/'.join(use_path)))
+                continue
+            sc, b = got_entry
+            got = ns_path(sc) if sc.cls != 'Module' else ()
+            want_path = () if want is None else want
+            by_path = {p_: t_ for (p_, t_) in tables}
+            if want is not None and by_path[want].get_type() == 'class' and got != want_path:
+                # The repository files a name that a class body both binds and reads under the module as an unresolved, pinned name
+                # (class-body loads compile to LOAD_NAME and may see either the class attribute or a global). That is conservative as
+                # long as the binding cannot be renamed.
+                pinned = b.attrs.get('_allow_rename') is False
+                rep.check(pinned, 'C03.RESOLVE', 'src/python_minifier/rename/resolve_names.py', '%s: %s (%s) in class scope %s -> pinned binding in %s' % (pname, name, ctx, '/'.join(use_path), '/'.join(got) or 'module'),
+                          'class-level name kept out of renaming', 'a name bound in a class body is attached to a renamable binding in %s' % ('/'.join(got) or 'module'),
+                          key='C03.RESOLVE|%s|%s|%s|%s' % (pname, name, ctx, '/'.join(use_path)))
+                continue
+            rep.check(got == want_path, 'C03.RESOLVE', 'src/python_minifier/rename/resolve_names.py', '%s: %s (%s) in %s -> %s' % (pname, name, ctx, '/'.join(use_path) or 'module', '/'.join(got) or 'module'),
+                      'same scope as the interpreter\'s symbol table', 'the occurrence of %s in %s is attached to the binding in %s, the interpreter resolves it in %s: a rename of either binding changes what this name refers to' %
+                      (name, '/'.join(use_path) or 'module', '/'.join(got) or 'module', '/'.join(want_path) or 'module / builtins'), key='C03.RESOLVE|%s|%s|%s|%s' % (pname, name, ctx, '/'.join(use_path)))
+    rep.floor('C03.RESOLVE', 50)
+
+
+def _enclosing_scope_path(tree, real, node_obj):
+    """Scope path (names as symtable reports them) of a Name occurrence, from the real tree, following the language's rule for
+    which scope evaluates each syntactic slot (defaults, decorators, annotations, bases, first comprehension iterable: enclosing scope)."""
+    target = node_obj.attrs.get('_pos')
+    found = []
+
+    def label(n):
+        if isinstance(n, (ast.FunctionDef, ast.AsyncFunctionDef, ast.ClassDef)):
+            return n.name
+        if isinstance(n, ast.Lambda):
+            return 'lambda'
+        return 'genexpr'
+
+    def visit(n, path):
+        if isinstance(n, ast.Name) and (n.lineno, n.col_offset) == target:
+            found.append(path)
+            return
+        if isinstance(n, (ast.FunctionDef, ast.AsyncFunctionDef)):
+            for d in n.decorator_list:
+                visit(d, path)
+            a = n.args
+            for x in a.defaults + [k for k in a.kw_defaults if k is not None]:
+                visit(x, path)
+            for p in a.posonlyargs + a.args + a.kwonlyargs + ([a.vararg] if a.vararg else []) + ([a.kwarg] if a.kwarg else []):
+                if p.annotation is not None:
+                    visit(p.annotation, path)
+            if n.returns is not None:
+                visit(n.returns, path)
+            for s in n.body:
+                visit(s, path + (label(n),))
+            return
+        if isinstance(n, ast.Lambda):
+            a = n.args
+            for x in a.defaults + [k for k in a.kw_defaults if k is not None]:
+                visit(x, path)
+            visit(n.body, path + ('lambda',))
+            return
+        if isinstance(n, ast.ClassDef):
+            for d in n.decorator_list + n.bases + [k.value for k in n.keywords]:
+                visit(d, path)
+            for s in n.body:
+                visit(s, path + (n.name,))
+            return
+        if isinstance(n, (ast.ListComp, ast.SetComp, ast.GeneratorExp, ast.DictComp)):
+            inner = path + ('genexpr',)
+            for i, g in enumerate(n.generators):
+                visit(g.iter, path if i == 0 else inner)
+                visit(g.target, inner)
+                for c in g.ifs:
+                    visit(c, inner)
+            for e in ([n.key, n.value] if isinstance(n, ast.DictComp) else [n.elt]):
+                visit(e, inner)
+            return
+        if isinstance(n, ast.NamedExpr):
+            # the target is *bound* outside comprehensions but it is mentioned in the comprehension's table
+            visit(n.target, path)
+            visit(n.value, path)
+            return
+        for c in ast.iter_child_nodes(n):
+            visit(c, path)
+    visit(tree, ())
+    return found[0] if found else None
